@@ -61,20 +61,23 @@ def matchTail : List (List Instr × List Instr) → List Instr
 /-- Calls that may read the clock are never evaluated by the compiler. -/
 def clockFunctions : List String := ["now", "timestamp"]
 
-/-- The bindings of `BindContext::for_compile()`. -/
-def compileEnv : Env := { hasCtx := false, hasBinds := true, compileMode := true }
+/-- The interpreter of `check_for_const`: the bindings of `BindContext::for_compile()`, no context; the one
+    interpreter whose `met_unresolved_name()` is read. -/
+def compileEnv : Env := { hasCtx := false, hasBinds := true, compileMode := true, trackUnres := true }
 
 /-- Is `name` bound as a function, macro or type when compiling. -/
 def compileBound (B : Builtins) (name : Str) : Bool :=
   (B.func name).isSome || compileEnv.isMacro name || (typeByName name).isSome
 
-/-- `check_for_const`: a call node is evaluated now iff it is closed and clock free and evaluation succeeds. -/
+/-- `check_for_const`: a call node is evaluated now iff it is closed and clock free, evaluation succeeds and
+    the run met no name it could not resolve (`!i.met_unresolved_name()`: no marker in the log). -/
 def checkForConst (B : Builtins) (idents : List Str) (code : List Instr) : CP :=
   let closed := idents.all fun n => compileBound B n && !(clockFunctions.any (·.toList = n))
   if !closed then .code code
   else
-    match (runAt B maxDepth compileEnv code true []).res with
-    | .ok v => .const v
+    let o := runAt B maxDepth compileEnv code true []
+    match o.res with
+    | .ok v => if o.log.metUnres then .code code else .const v
     | .error _ => .code code
 
 /-- Constant folding of `{..}.name` (member access on a constant map). -/
